@@ -1,6 +1,6 @@
 //! C12 — structural predicates decide exactly their mathematical definitions.
 
-use super::c17::{draw_order, run_top};
+use super::c17::{draw_order, draw_order_tail, run_top};
 use super::draw_sched;
 use crate::core::{Lane, Scenario, Stats, Tier, Violation};
 use crate::exec::Conf;
@@ -291,7 +291,14 @@ impl Lane for C12 {
             Tier::Thorough => 48,
         };
         let max = if rng.chance(1, 5) { max } else { max.min(16) };
-        let n = draw_order(rng, max);
+        let n = if rng.chance(1, 40) {
+            // bit-matrix rows that start on a word boundary
+            *rng.pick(&[64, 128, 192, 256])
+        } else if rng.chance(1, 3) {
+            draw_order_tail(rng, max).min(260)
+        } else {
+            draw_order(rng, max)
+        };
         let mut d = draw_near_miss(rng, n);
         if rng.chance(1, 3) {
             let ids = random_vertex_set(rng, n, 3 * max);
@@ -354,8 +361,15 @@ impl Lane for C12 {
             Ok((g, hh)) => check_preds!(st, vs, "AdjacencyMap", input_class(d), exp, g, hh),
             Err(m) => vs.push(Violation::new("unexpected_panic", "AdjacencyMap::build", class, m)),
         }
-        if both_contig {
-            let (g, hh) = (build_list(d), build_list(h));
+        let fixed = if both_contig {
+            guard(|| (build_list(d), build_list(h), build_matrix(d), build_matrix(h), build_edge_list(d), build_edge_list(h)))
+        } else {
+            Err(String::new())
+        };
+        if let (true, Err(m)) = (both_contig, &fixed) {
+            vs.push(Violation::new("unexpected_panic", "build", "contiguous", format!("building the digraphs through the public API panicked: {m}")));
+        }
+        if let Ok((g, hh, mx_d, mx_h, el_d, el_h)) = fixed {
             // AdjacencyList::is_semicomplete is threaded: it is judged by run_top above, inside
             // scheduled executions; the sequential predicates of the list are checked here
             {
@@ -380,10 +394,12 @@ impl Lane for C12 {
                 one("is_superdigraph", guard(|| hh.is_superdigraph(&g)), exp.sup);
                 one("is_spanning_subdigraph", guard(|| hh.is_spanning_subdigraph(&g)), exp.spanning);
             }
-            check_preds!(st, vs, "AdjacencyMatrix", "contiguous", exp, build_matrix(d), build_matrix(h));
-            check_preds!(st, vs, "EdgeList", "contiguous", exp, build_edge_list(d), build_edge_list(h));
+            check_preds!(st, vs, "AdjacencyMatrix", "contiguous", exp, mx_d, mx_h);
+            check_preds!(st, vs, "EdgeList", "contiguous", exp, el_d, el_h);
             let w = |x: &Dg| WDg { v: x.v.clone(), a: x.a.iter().map(|&(u, v)| ((u, v), 1 + ((u * 7 + v) % 5) as i64)).collect() };
-            check_preds!(st, vs, "AdjacencyListWeighted", "contiguous", exp, build_weighted_isize(&w(d)), build_weighted_isize(&w(h)));
+            if let Ok((wd, wh)) = guard(|| (build_weighted_isize(&w(d)), build_weighted_isize(&w(h)))) {
+                check_preds!(st, vs, "AdjacencyListWeighted", "contiguous", exp, wd, wh);
+            }
         }
         vs
     }
